@@ -123,3 +123,25 @@ def claims_txt(claims):
 
 def call_name(c):
     return c.split(':')[0]
+
+
+def build_rust():
+    """scratch copy of the CURRENT lib.rs + harness/rust/interp_harness.rs -> line-protocol binary
+    (requests: X <G|C|P> hexG hexC hexP = state after the files up to that phase; V g c p = verify)"""
+    d = C.scratch_dir('pi2rsI.')
+    lib = open(os.path.join(C.REPO, 'rust', 'src', 'lib.rs')).read()
+    har = open(os.path.join(C.VERIF, 'harness', 'rust', 'interp_harness.rs')).read()
+    with open(os.path.join(d, 'lib.rs'), 'w') as f:
+        f.write(lib + '\n' + har)
+    base = 'rustc +stable --edition 2021 -O --cap-lints allow'
+    rc, o, e = C.sh(f'{base} --crate-type rlib --crate-name checker lib.rs', cwd=d, timeout=300)
+    if rc != 0:
+        return None, 'rlib: ' + e[-3000:]
+    rc, o, e = C.sh(f'{base} --extern checker=libchecker.rlib -L . {C.VERIF}/harness/rust/interp_main.rs -o rsinterp',
+                    cwd=d, timeout=300)
+    if rc != 0:
+        return None, 'rsinterp: ' + e[-3000:]
+    return os.path.join(d, 'rsinterp'), ''
+
+
+HEADLESS = re.compile(r'^S\[(.*?)\] M\[(.*?)\] C\[(.*?)\]$')
